@@ -48,7 +48,7 @@ Notation fwidth := (fixed_width cwidth).
 
 Lemma tail_size_mod4 t tv : tail_mod4 t = true -> Nat.modulo (tail_size cwidth t tv) 4 = 0%nat.
 Proof.
-  destruct t as [|elt pm pk| |mx al]; destruct tv; cbn [tail_mod4 tail_size]; intros H; try reflexivity.
+  destruct t as [|elt pm pk| |mx al z]; destruct tv; cbn [tail_mod4 tail_size]; intros H; try reflexivity.
   - apply orb_prop in H as [H|H].
     + apply andb_prop in H as [He Hp]. apply Nat.eqb_eq in He, Hp. subst pm.
       rewrite Nat.mod_1_r, Nat.mul_0_l, Nat.add_0_r.
@@ -66,9 +66,11 @@ Proof.
       * rewrite Hr1 in *. replace (n * ew + 1 * pk)%nat with ((2 * q * a + q + a + b + 1) * 4)%nat by nia.
         apply Nat.mod_mul. lia.
   - replace (4 * length ws)%nat with (length ws * 4)%nat by lia. apply Nat.mod_mul. lia.
-  - apply andb_prop in H as [Ha Hm]. apply Nat.eqb_eq in Ha, Hm. subst al.
-    destruct (Nat.min_spec mx (round_up (length bs) 4)) as [[_ ->]|[_ ->]]; [exact Hm|].
-    apply round_up_mod. lia.
+  - apply andb_prop in H as [Ha Hm]. apply Nat.eqb_eq in Ha, Hm. subst al. destruct z.
+    + destruct (Nat.min_spec mx (round_up (S (Nat.min (length bs) (Nat.pred mx))) 4)) as [[_ ->]|[_ ->]]; [exact Hm|].
+      apply round_up_mod. lia.
+    + destruct (Nat.min_spec mx (round_up (length bs) 4)) as [[_ ->]|[_ ->]]; [exact Hm|].
+      apply round_up_mod. lia.
 Qed.
 
 Lemma table_size4 : forallb kind_size4 packet_table = true.
